@@ -38,6 +38,7 @@ func digestHash(d []string) string {
 // calls (caches filled by whoever came first) cannot hide in both sides of the
 // comparison.
 func campaignC18Solo(p *Parser, req *Request, resp *Response) {
+	prepareFiles(p, req.Clients)
 	for i := range req.Clients {
 		var row []string
 		for j := range req.Clients[i] {
@@ -86,6 +87,7 @@ func campaignC18(p *Parser, req *Request, resp *Response) {
 			sc.ChangePoints = append(sc.ChangePoints, 1+simrt.Choose(span))
 		}
 	}
+	prepareFiles(p, clients)
 	if p.Prebuild != nil {
 		seen := map[string]bool{}
 		var keys []string
